@@ -230,6 +230,11 @@ public:
 	size_t maxSamples = 6;
 
 	void obs(uint64_t v) { execHash = mix64(execHash, v); }
+	// something about how the current BFS step ended that the model state does not show (a call's result, "a fault fired"):
+	// harnesses whose keys include the last operation append it here, so that e.g. remove(h) -> true and the later
+	// remove(h) -> false on a stale handle are two different edges into the same model state and both targets are expanded
+	std::string stepTag;
+	void tagStep(const std::string & t) { stepTag += t; }
 	void obsStr(const std::string & s) { obs(hashStr(s)); }
 
 	void log(const std::string & s) { HarnessScope hs; if(tracing) trace.push_back(s); }
@@ -306,7 +311,7 @@ public:
 
 	// start of a step: which operation
 	int lastOp = -1; std::string outcomeTag;
-	int chooseOp(int nOps) { lastOp = ctx.ex.choose(nOps, nOps, K_OP); outcomeTag.clear(); return lastOp; }
+	int chooseOp(int nOps) { lastOp = ctx.ex.choose(nOps, nOps, K_OP); outcomeTag.clear(); ctx.stepTag.clear(); return lastOp; }
 	// optional: something about how the operation ended that the model does not show (e.g. "an injected fault fired")
 	void tagOutcome(const std::string & t) { outcomeTag += t; }
 
@@ -315,7 +320,7 @@ public:
 
 	// end of a step (also called once before the first step with the initial key)
 	void stepEnd(const std::string & modelKey) {
-		const std::string key = opt.keyIncludesLastOp ? modelKey + fmt("#op%d", lastOp) + outcomeTag : modelKey;
+		const std::string key = opt.keyIncludesLastOp ? modelKey + fmt("#op%d", lastOp) + outcomeTag + ctx.stepTag : modelKey;
 		Explorer & ex = ctx.ex;
 		if(ctx.failed) throw Stop{};
 		if(!ex.beyondPrefix()) {
